@@ -23,7 +23,8 @@ RULE = (
     "near-miss truncated headers, the bytes 01 00 01 00 02 00 at offset 0), in a raw file, a PE .data section or a "
     "XorEncoded PE stage (any stub <= 1000, nonce, marker/size field, optional raw-level decoy block in the stub); "
     "key modes default / caller list / all 256; entry points from_bytes, from_file, from_path; plus the seven real sample "
-    "beacons (frozen facts) and blocks placed beyond 64/128/256 KiB. Oracle: reference "
+    "beacons (frozen facts), blocks placed beyond 64/128/256 KiB, and exhaustively every pair of two blocks under two "
+    "different keys (first block at offset 0 / 3) x entry point x default / explicit key list. Oracle: reference "
     "extraction on the known plaintext view(s): XorEncoded view first, then raw; keys in priority order; first "
     "occurrence in file order; ValueError iff no tried key has a header. Non-trivial: a block is found and "
     "(offset > 0 or container != raw) and it has >= 2 settings. Distinct by content."
@@ -433,6 +434,11 @@ def small_enumerate(tier, shard, nshards):
                 for key in (0x69, 0x2E, 0x00):
                     for n, (mode, entry, arch) in enumerate([("both", "bytes", "x86"), ("marker_only", "file", "x64"), ("size_only", "path", "x86")]):
                         yield {"prepend": prepend, "dword": dword, "key": key, "mode": mode, "entry": entry, "arch": arch}
+        # no stub at all (the nonce is the first dword of the file) and a one-byte stub: located through the size field
+        for stub in (0, 1):
+            for key in (0x69, 0x2E, 0x00):
+                for entry in ("bytes", "file", "path"):
+                    yield {"prepend": 0, "dword": None, "key": key, "mode": "size_only", "entry": entry, "arch": "x86", "stub": stub}
 
     return shard_iter(gen(), shard, nshards)
 
@@ -440,7 +446,7 @@ def small_enumerate(tier, shard, nshards):
 def small_execute(case, stats):
     blocks = [{"proto": 0, "settings": [(2, SHORT, b"\x01\xbb"), (37, INT, b"\x00\x00\x00\x07")], "key": case["key"], "pad": "none", "gap": 0}]
     full = {
-        "blocks": blocks, "filler": "zeros", "seed": 7, "target": (0, 0), "container": "xorpe", "arch": case["arch"], "stub": b"\xfc" * 12,
+        "blocks": blocks, "filler": "zeros", "seed": 7, "target": (0, 0), "container": "xorpe", "arch": case["arch"], "stub": b"\xfc" * case.get("stub", 12),
         "nonce": b"\x21\x43\x65\x87", "marker_mode": case["mode"], "prepend": case["prepend"], "prepend_dword": case["dword"], "stub_decoy": None,
         "tail": 0, "bufsize": None, "keys": {"mode": "default", "list": []}, "entry": case["entry"],
     }  # fmt: skip
